@@ -943,6 +943,49 @@ fn grid() {
         for _ in 0..777 { s2.push('x'); }
         println!("R string_reserved_no_move es=1 n=777 moved={} bound=0", (s2.as_ptr() as usize != p0) as usize);
     }
+    // C13: the constructors and conversions that collect from an iterator (collect_in.rs, from_iter_in,
+    // into_* conversions) against std's collect, for honest and lying size hints, with Option/Result
+    // short-circuits
+    {
+        use bumpalo::collections::CollectIn;
+        let bump = Bump::new();
+        let show = |v: &[u32]| v.iter().map(|x| x.to_string()).collect::<Vec<_>>().join(",");
+        for n in [0usize, 1, 2, 5, 9, 33] {
+            for hint in [0usize, 1, 3, 8, 40] {
+                struct It { left: usize, hint: usize, exact: bool }
+                impl Iterator for It {
+                    type Item = u32;
+                    fn next(&mut self) -> Option<u32> { if self.left == 0 { None } else { self.left -= 1; Some(self.left as u32 * 3) } }
+                    fn size_hint(&self) -> (usize, Option<usize>) { (self.hint, if self.exact { Some(self.hint) } else { None }) }
+                }
+                for exact in [false, true] {
+                    let mk = || It { left: n, hint, exact };
+                    let s: Vec<u32> = mk().collect();
+                    let b1: BVec<u32> = mk().collect_in(&bump);
+                    let b2: bumpalo::boxed::Box<[u32]> = mk().collect_in(&bump);
+                    let b3: BVec<u32> = BVec::from_iter_in(mk(), &bump);
+                    let b4 = bumpalo::boxed::Box::<[u32]>::from_iter_in(mk(), &bump);
+                    let b5 = { let v: BVec<u32> = mk().collect_in(&bump); v.into_bump_slice().to_vec() };
+                    let b6 = { let v: BVec<u32> = mk().collect_in(&bump); let b = v.into_boxed_slice(); b.to_vec() };
+                    let all = [b1.to_vec(), b2.to_vec(), b3.to_vec(), b4.to_vec(), b5, b6];
+                    let ok = all.iter().all(|x| *x == s);
+                    println!("Q collect n={} hint={} exact={} | {} | {}", n, hint, exact as u8, if ok { "same".to_string() } else { all.iter().map(|x| show(x)).collect::<Vec<_>>().join("/") }, show(&s));
+                    // Option / Result: stop at the first None / Err
+                    for stop in [0usize, 1, n / 2, n] {
+                        let so: Option<Vec<u32>> = mk().enumerate().map(|(i, x)| if i == stop && stop < n { None } else { Some(x) }).collect();
+                        let bo: Option<BVec<u32>> = mk().enumerate().map(|(i, x)| if i == stop && stop < n { None } else { Some(x) }).collect_in(&bump);
+                        let sr: Result<Vec<u32>, usize> = mk().enumerate().map(|(i, x)| if i == stop && stop < n { Err(i) } else { Ok(x) }).collect();
+                        let br: Result<BVec<u32>, usize> = mk().enumerate().map(|(i, x)| if i == stop && stop < n { Err(i) } else { Ok(x) }).collect_in(&bump);
+                        let same = so == bo.map(|v| v.to_vec()) && sr == br.map(|v| v.to_vec());
+                        if !same { println!("Q collect_opt_res n={} stop={} | differs | -", n, stop); }
+                    }
+                }
+            }
+        }
+        let st: String = "aé€𝄞z".chars().collect();
+        let bs: bumpalo::collections::String = "aé€𝄞z".chars().collect_in(&bump);
+        println!("Q collect_string | {} | {}", if bs.as_str() == st { "same" } else { bs.as_str() }, st);
+    }
     one::<()>();
     one::<u8>();
     one::<[u8; 3]>();
